@@ -106,6 +106,37 @@ def encapsulation_rule(F, G, rep):
     return hashname
 
 
+def bool_branches(p, flag):
+    """(body when flag is true, body when flag is false) for `if flag`, `if !flag` and `match flag { true => .., false|_ => .. }`"""
+    if p.get("k") == "If":
+        c = strip(p["cond"])
+        if L.local_name(c) == flag:
+            return p["then"], p.get("else")
+        if c.get("k") == "Unary" and c.get("op") == "Not" and L.local_name(c["e"]) == flag:
+            return p.get("else"), p["then"]
+        return None
+    if p.get("k") == "Match" and L.local_name(p["scrut"]) == flag:
+        t = f = None
+        for a in p["arms"]:
+            q = a["pat"]
+            if a.get("guard"):
+                return None
+            if q.get("k") == "Lit" and q["e"].get("lit") == "bool":
+                if q["e"]["v"]:
+                    t = t or a["body"]
+                else:
+                    f = f or a["body"]
+            elif q.get("k") in ("Wild", "Bind"):
+                if t is None:
+                    t = a["body"]
+                elif f is None:
+                    f = a["body"]
+            else:
+                return None
+        return t, f
+    return None
+
+
 def seek_guard_rule(F, G, rep, hashname):
     b = F.body(READ)
     root = b["tir"]["value"]
@@ -118,11 +149,12 @@ def seek_guard_rule(F, G, rep, hashname):
         sibling_consumes = False
         while id(x) in par:
             p = par[id(x)]
-            if p.get("k") == "If" and L.local_name(p["cond"]) == hashname and hashname:
-                # the seek must be in the else branch
-                in_else = any(y is s for y in tir.walk(p.get("else") or {}))
-                guarded = in_else
-                then_txt = [callee(y) or "" for y in tir.walk(p["then"]) if y.get("k") in ("Call", "MethodCall")]
+            br = bool_branches(p, hashname) if hashname else None
+            if br is not None:
+                when_true, when_false = br
+                # the seek must be on the path taken when the flag is false
+                guarded = when_false is not None and any(y is s for y in tir.walk(when_false))
+                then_txt = [callee(y) or "" for y in tir.walk(when_true or {}) if y.get("k") in ("Call", "MethodCall")]
                 sibling_consumes = any(c.endswith("io::copy") for c in then_txt) and any(c.endswith("Read::take") for c in then_txt)
                 break
             x = p
